@@ -85,7 +85,9 @@ Consume(rec, prev) ==
     [] rec.k \in {"fin", "abort"} -> UNCHANGED vars
     [] rec.k = "start" -> IF "ret" \in DOMAIN rec /\ AllIdle(rec) THEN Canon(rec)
                           ELSE IF rec.opn = "traverse" THEN FreshIter(rec.t) ELSE UNCHANGED vars
-    [] rec.k = "step" -> (Atomic(rec, rec.t, prev) \/ UNCHANGED vars)
+    \* (a stutter is only admitted where the thread stays at its site; otherwise an unobservable register update
+    \*  and its omission both survive and the alternatives double with every such step)
+    [] rec.k = "step" -> (Atomic(rec, rec.t, prev) \/ ((rec.sites[rec.t] = prev.sites[rec.t] \/ prev.sites[rec.t] = 166) /\ UNCHANGED vars))   \* 166: the restart load of a stalled traversal, which the model folds into the failed unlink
     [] OTHER -> FALSE
 
 SInit == l = 1 /\ Init /\ TLCSet(1, 1) /\ TLCSet(2, <<>>)
